@@ -118,6 +118,8 @@ impl<'a> Case<'a> {
     }
 
     fn explore(&self, acc: &mut Acc, calls: usize, pair_bound: bool) {
+        // every error kind at every index on the shortest inputs only (the rest: three fixed kinds + one in rotation)
+        let all_kinds = self.input.len() <= 3;
         // Interrupted: deviation bound 1, then 2 (every pair, includes consecutive), consecutive triples
         for i in 0..calls {
             let mut s1 = self.base.clone();
@@ -134,12 +136,51 @@ impl<'a> Case<'a> {
             s3.faults.push((i + 1, Fault::Interrupted));
             s3.faults.push((i + 2, Fault::Interrupted));
             self.interrupted(acc, &s3);
-            // hard errors
+            // hard errors: two fixed kinds, the one that looks like an end of input, and one of the rest in rotation
             self.hard(acc, i, ErrorKind::Other);
             self.hard(acc, i, ErrorKind::BrokenPipe);
+            self.hard(acc, i, ErrorKind::UnexpectedEof);
+            if all_kinds {
+                for &k in ALL_KINDS.iter() {
+                    self.hard(acc, i, k);
+                }
+            } else {
+                self.hard(acc, i, ALL_KINDS[(i + self.input.len()) % ALL_KINDS.len()]);
+            }
+            // long runs of interrupts at one refill ("any number of times")
+            if all_kinds || i < 2 || i + 2 >= calls {
+                for k in [17usize, 40] {
+                    let mut s = self.base.clone();
+                    for j in 0..k {
+                        s.faults.push((i + j, Fault::Interrupted));
+                    }
+                    self.interrupted(acc, &s);
+                }
+            }
+        }
+        // interrupt storms: an interrupt before every single piece; two before every piece
+        for per in [1usize, 2] {
+            let mut s = self.base.clone();
+            let mut at = 0;
+            for _ in 0..calls {
+                for _ in 0..per {
+                    s.faults.push((at, Fault::Interrupted));
+                    at += 1;
+                }
+                at += 1;
+            }
+            self.interrupted(acc, &s);
         }
     }
 }
+
+/// every `io::ErrorKind` a source can reasonably answer with, except `Interrupted`
+const ALL_KINDS: [ErrorKind; 18] = [
+    ErrorKind::NotFound, ErrorKind::PermissionDenied, ErrorKind::ConnectionRefused, ErrorKind::ConnectionReset, ErrorKind::ConnectionAborted,
+    ErrorKind::NotConnected, ErrorKind::AddrInUse, ErrorKind::AddrNotAvailable, ErrorKind::AlreadyExists, ErrorKind::WouldBlock,
+    ErrorKind::InvalidInput, ErrorKind::InvalidData, ErrorKind::TimedOut, ErrorKind::WriteZero, ErrorKind::UnexpectedEof, ErrorKind::Unsupported,
+    ErrorKind::OutOfMemory, ErrorKind::Other,
+];
 
 fn markup_spans(input: &[u8]) -> Vec<(usize, usize)> {
     let s = strip_bom(input);
@@ -185,7 +226,7 @@ pub fn run(ctx: &mut Ctx) {
          documents; chunkings: piece sizes 1, 2, 3, whole; configurations neutral, default, neutral+text trimming; sources: \
          buffered and hand-polled async. For each combination the fault-free run fixes the number N of refill calls; then for \
          EVERY call index i < N: Interrupted at i; Interrupted at every pair i < j; three consecutive Interrupted from i; a hard \
-         error (ErrorKind::Other, BrokenPipe) at i. Oracle: interrupts leave the whole trace (events, errors, both positions, \
+         error (ErrorKind::Other, BrokenPipe, UnexpectedEof and one of 18 kinds in rotation; all 18 on inputs of <= 3 bytes) at i; 17 and 40 consecutive Interrupted from the first two and last two refills (inputs <= 3 bytes: from every i); an Interrupted (and two) before every single piece. Oracle: interrupts leave the whole trace (events, errors, both positions, \
          one call after Eof) identical; a hard error yields an exact prefix of the fault-free trace followed by Error::Io of \
          that kind (nothing is asserted about calls after it). non-trivial = the fault fires while a markup construct is \
          partially consumed (source offset strictly inside a construct's span, spans from the reference lexer); counted per \
